@@ -1372,7 +1372,7 @@ func checkC18(in *exInput) []exFinding {
 func exExpandRootedWithCache(g *exGraph, op string, element json.RawMessage, cache spec.ResolutionCache) *exCacheRun {
 	r := &exCacheRun{}
 	lg := &exLoadLog{}
-	exGlobalLoader.Store(exMakeLoader(g.Docs, g.Missing, lg))
+	exInstallGlobal(exMakeLoader(g.Docs, g.Missing, lg))
 	r.timeout, r.pan = exGuard(func() {
 		var root map[string]interface{}
 		if err := json.Unmarshal(g.Docs[g.Root], &root); err != nil {
@@ -1732,7 +1732,7 @@ func exExecAny(c *exCall) *exOutcome {
 	case "expand_meta": // ExpandSchema of a fresh copy of the meta-schema, against itself
 		o := &exOutcome{Loads: []string{}}
 		lg := &exLoadLog{}
-		exGlobalLoader.Store(exMakeLoader(c.Docs, nil, lg))
+		exInstallGlobal(exMakeLoader(c.Docs, nil, lg))
 		sch := exMetaSchema(c.Kind)
 		if err := spec.ExpandSchema(sch, nil, nil); err != nil {
 			o.Err, o.ErrText = true, err.Error()
@@ -1745,7 +1745,7 @@ func exExecAny(c *exCall) *exOutcome {
 		o := &exOutcome{Loads: []string{}}
 		lg := &exLoadLog{}
 		loader := exMakeLoader(c.Docs, nil, lg)
-		exGlobalLoader.Store(loader)
+		exInstallGlobal(loader)
 		whole := spec.MustCreateRef(exMetaURL(c.Kind))
 		nested := spec.MustCreateRef(exMetaURL(c.Kind) + "#/properties/" + map[string]string{"draft04": "multipleOf", "swagger20": "swagger"}[c.Kind])
 		a, err := spec.ResolveRefWithBase(nil, &whole, &spec.ExpandOptions{PathLoader: loader})
